@@ -299,6 +299,8 @@ fn run(ctx: &Arc<Ctx>) {
     ctx.run_generated("rs-random", "rs", ctx.cases(60_000, 5_000_000), g_random_word, check_rs);
     ctx.run_generated("rs-within", "rs", ctx.cases(20_000, 1_000_000), || g_error_pattern(Radius::Within), check_rs);
     ctx.run_generated("rs-beyond", "rs", ctx.cases(40_000, 3_000_000), || g_error_pattern(Radius::Beyond), check_rs);
+    ctx.run_generated("rs-constrained-within", "rs", ctx.cases(40_000, 1_500_000), || g_constrained_values(Radius::Within), check_rs);
+    ctx.run_generated("rs-constrained-beyond", "rs", ctx.cases(40_000, 1_500_000), || g_constrained_values(Radius::Beyond), check_rs);
     ctx.run_generated("rs-near-miss", "rs", ctx.cases(20_000, 1_000_000), g_near_miss, check_rs);
     // (c) pixel arrays
     ctx.run_generated("bitmaps", "bitmap", ctx.cases(60_000, 3_000_000), g_bitmap, check_bitmap);
